@@ -44,6 +44,7 @@ fn run_case(case: &Sexp) -> String {
     "retire" => retire::run_retire(body),
     "conc" => conc::run_conc(body),
     "sched_race" => conc::run_sched_race(body),
+    "unsub_race" => conc::run_unsub_race(body),
     "locks" => locks::run_locks(body),
     "ileave" => ileave::run_ileave(body),
     "ileave2" => ileave2::run_ileave2(body),
